@@ -282,6 +282,7 @@ class Check:
         if rinfo:
             opts = {"max_len": 4, "pin": pin_from_model(r.get("model")), "replay_path": path, "prop": self.prop,
                     "oid": r["id"], "budget_s": 120}
+            opts.update(rinfo.get("opts", {}))
             res, err = native([os.path.join(VERIF, "rxvc", rinfo["runner"]), rinfo.get("mode", "replay"), rinfo["module"],
                                rinfo["name"], json.dumps(opts)])
             if res and res.get("replay"):
